@@ -52,6 +52,7 @@ def run(ctx):
     progq = db.program('qmail-queue')
     rules01 = {k: None for k in ()}
     H = C01.QueueHooks({})
+    H.ADDR = None
     from qv.lib import macro_const as _mc
     H.precise = frozenset(C01.counter_vars(progq.fn('main', 'qmail-queue.c'), _mc(db, 'qmail-queue.c', 'ADDR')))
     eng = Engine(db, progq, H)
